@@ -33,7 +33,12 @@ fn eval_tcp_throughput_inv(rtt: f64, target_rate_bps: u32) -> f64 {
     let mut a = 0.0;
     let mut b = 1.0;
 
-    loop {
+    // The interval is halved each iteration, so nothing is gained beyond the precision of an f64.
+    // Without a bound the search never ends when no loss rate in [0, 1] yields the target rate
+    // (e.g. an RTT of zero, or a target below the throughput at p = 1).
+    const MAX_ITERATIONS: usize = 64;
+
+    for _ in 0 .. MAX_ITERATIONS {
         let c = (b + a)/2.0;
 
         let rate = eval_tcp_throughput(rtt, c);
@@ -56,6 +61,8 @@ fn eval_tcp_throughput_inv(rtt: f64, target_rate_bps: u32) -> f64 {
             return c;
         }
     }
+
+    return (b + a)/2.0;
 }
 
 #[derive(Debug,PartialEq)]
